@@ -71,6 +71,7 @@ assert len(ROTATIONS) == 24
 
 _CORPUS = None
 _FOCUS = []
+_BRIDGES = []
 _SERVERS = {}
 
 
@@ -107,6 +108,18 @@ def preload():
             names = {line[12:16].strip() for line in lines}
             if key[2] in ('HIS', 'HSP', 'HSD', 'HSE') and {'HD1', 'HE2'} <= names:
                 _FOCUS.append((sidx, ridx))
+    # pairs of cysteines of one chain, at most 22 residues apart, whose sulphur atoms are within 2.5 Angstrom: the bond
+    # between them can be stated in the file by a CONECT record
+    for sidx, src in enumerate(corpus):
+        sulphurs = []
+        for ridx, (key, lines) in enumerate(src['residues']):
+            for line in lines:
+                if key[2] == 'CYS' and line[12:16].strip() == 'SG':
+                    sulphurs.append((ridx, key[0], (float(line[30:38]), float(line[38:46]), float(line[46:54]))))
+        for pos, (r1, c1, x1) in enumerate(sulphurs):
+            for r2, c2, x2 in sulphurs[pos + 1:]:
+                if c1 == c2 and r2 - r1 <= 22 and sum((a - b) ** 2 for a, b in zip(x1, x2)) < 2.5 ** 2:
+                    _BRIDGES.append((sidx, r1, r2))
     _CORPUS = corpus
 
 
@@ -125,8 +138,15 @@ def fragment(case):
         nres = len(src['residues'])
         length = min(case['length'], nres)
         start = max(0, min(nres - length, ridx - case['start'] % length))
+    if case.get('conect') is not None and _BRIDGES:
+        # a fragment that contains both cysteines of a disulfide bridge
+        sidx, r1, r2 = _BRIDGES[case['conect']['pair'] % len(_BRIDGES)]
+        src = _CORPUS[sidx]
+        nres = len(src['residues'])
+        length = min(nres, max(case['length'], r2 - r1 + 1))
+        start = max(0, min(nres - length, r1 - case['start'] % (length - (r2 - r1))))
     residues = src['residues'][start:start + length]
-    split = case.get('split')
+    split = case.get('split') if case.get('conect') is None else None
     if split is not None and length >= 5 and len(set(key[0] for key, _ in residues)) == 1:
         # two molecules out of one: a residue is left out and the two pieces get chain identifiers of their own
         cut = 1 + split['at'] % (length - 3)
@@ -163,10 +183,38 @@ def is_h(line):
     return name.lstrip('0123456789').startswith('H')
 
 
-def render(residues, transform):
-    """PDB text of the fragment under a presentation transform (None = as is)."""
+def bridge_records(residues):
+    """The sulphur atoms of the cysteines, as (residue index, line index), paired up: each with the nearest one left."""
+    sulphurs = []
+    for ridx, (key, lines) in enumerate(residues):
+        for i, line in enumerate(lines):
+            if key[2] == 'CYS' and line[12:16].strip() == 'SG' and line[16] in (' ', 'A'):
+                sulphurs.append(((ridx, i), (float(line[30:38]), float(line[38:46]), float(line[46:54]))))
+    pairs = []
+    while len(sulphurs) >= 2:
+        first, xyz = sulphurs.pop(0)
+        best = min(range(len(sulphurs)), key=lambda k: (sum((a - b) ** 2 for a, b in zip(xyz, sulphurs[k][1])), k))
+        other, xyz2 = sulphurs.pop(best)
+        if sum((a - b) ** 2 for a, b in zip(xyz, xyz2)) < 2.5 ** 2:
+            pairs.append((first, other))
+    return pairs
+
+
+def render(residues, transform, conect=()):
+    """PDB text of the fragment under a presentation transform (None = as is).  `conect`: pairs of atoms, each given as
+    (residue index, line index), whose bond is stated by CONECT records.  With transform['keep_serial'] every atom carries
+    the serial number it has in the file as is, wherever the permutation puts it (the CONECT records are then the same
+    text); otherwise the atoms are numbered in the order of the file and the CONECT records name the new numbers."""
     out = []
     serial = 1
+    given = {}
+    fixed = {}
+    if transform and transform.get('keep_serial'):
+        count = 1
+        for ridx, (key, lines) in enumerate(residues):
+            for i in range(len(lines)):
+                fixed[(ridx, i)] = count
+                count += 1
     prev_chain = None
     moved = renamed = 0
     for ridx, (key, lines) in enumerate(residues):
@@ -207,10 +255,14 @@ def render(residues, transform):
                 old = (x, y, z)
                 new_xyz = [sign[k] * old[perm[k]] + transform['shift'][k] / 1000.0 for k in range(3)]
                 line = line[:30] + ''.join('%8.3f' % v for v in new_xyz) + line[54:]
-            line = line[:6] + '%5d' % (serial % 100000) + line[11:]
+            given[(ridx, i)] = fixed.get((ridx, i), serial) % 100000
+            line = line[:6] + '%5d' % given[(ridx, i)] + line[11:]
             serial += 1
             out.append(line)
     out.append('TER')
+    for first, other in conect:
+        out.append('CONECT%5d%5d' % (given[first], given[other]))
+        out.append('CONECT%5d%5d' % (given[other], given[first]))
     out.append('END')
     return '\n'.join(out) + '\n', moved, renamed
 
@@ -472,6 +524,9 @@ def run(case):
             chains.append(key[0])
     if opt.get('merge') == 'listed':
         opt['merge'] = ','.join(chains) if len(chains) > 1 and all(c.strip() for c in chains) else None
+    if case.get('conect') is not None and case['conect'].get('only_stated'):
+        # no bridges from distances: the bond between the sulphur atoms is in the topology only because the file states it
+        opt['cys'] = 'none'
     args = cli_args(opt)
     if transform.get('origin_atom') is not None:
         # the rigid motion is chosen such that one heavy atom lands on the origin exactly (0.000 0.000 0.000 in the file)
@@ -480,8 +535,11 @@ def run(case):
         old_xyz = (float(line[30:38]), float(line[38:46]), float(line[46:54]))
         perm, sign = ROTATIONS[transform['rot']]
         transform = dict(transform, shift=[-sign[k] * int(round(old_xyz[perm[k]] * 1000)) for k in range(3)])
-    base_text, _, _ = render(residues, None)
-    var_text, moved, renamed = render(residues, transform)
+    conect = bridge_records(residues) if case.get('conect') is not None else []
+    if case.get('conect') is not None:
+        transform = dict(transform, keep_serial=case['conect']['keep_serial'], permute=True)
+    base_text, _, _ = render(residues, None, conect)
+    var_text, moved, renamed = render(residues, transform, conect)
     res_a = pipeline(0, base_text, args, timeout=3600.0)
     if res_a.get('timeout'):
         return Outcome(['inconclusive:base-run-exceeded-3600s'], False)
@@ -553,6 +611,10 @@ def run(case):
         classes.append('alternate-locations')
     if has_ss:
         classes.append('two-cysteines')
+    if conect:
+        classes.append('conect-records')
+        if transform.get('keep_serial') and moved:
+            classes.append('conect-serials-out-of-file-order')
     n_inter = sum(len(l) for mt in out_a['moltypes'].values() for l in mt['inter'].values())
     if n_inter:
         classes.append('has-interactions')
@@ -614,6 +676,9 @@ def strategy(tier):
         'focus': st.one_of(st.none(), st.none(), st.none(), st.none(), st.integers(0, 50)),
         'split': st.one_of(st.none(), st.fixed_dictionaries({
             'at': st.integers(0, 40), 'chains': st.sampled_from([['A', 'B'], ['B', 'A'], ['X', 'a'], ['1', '2'], ['H', 'L']])})),
+        'conect': st.one_of(st.none(), st.none(), st.fixed_dictionaries({
+            'pair': st.integers(0, 40), 'keep_serial': st.sampled_from([True, True, True, False]),
+            'only_stated': st.sampled_from([True, True, True, False])})),
         'altloc': st.one_of(st.just([]), st.just([]), st.lists(st.tuples(st.integers(0, 40), st.integers(0, 30)).map(list), min_size=1, max_size=3)),
     })
 
